@@ -3,11 +3,22 @@ from __future__ import annotations
 import io
 from typing import Any, Optional, Sequence
 
+import scipy.sparse
 from scipy.sparse import load_npz, save_npz, spmatrix
 
 from ._audit import Node
 from ._protocol import PROTOCOL
 from ._utils import LoadContext, SaveContext, get_module
+
+
+# The sparse matrix classes (csr_matrix, csc_matrix, coo_matrix, ...): the class
+# of the dumped matrix is what is stored in the file, so all of them have to be
+# trusted by default, not only their common base class.
+SPARSE_MATRIX_TYPES = [
+    type_
+    for type_ in vars(scipy.sparse).values()
+    if isinstance(type_, type) and issubclass(type_, spmatrix)
+]
 
 
 def sparse_matrix_get_state(obj: Any, save_context: SaveContext) -> dict[str, Any]:
@@ -42,7 +53,7 @@ class SparseMatrixNode(Node):
     ) -> None:
         super().__init__(state, load_context, trusted)
         self.type = state["type"]
-        self.trusted = self._get_trusted(trusted, [spmatrix])
+        self.trusted = self._get_trusted(trusted, SPARSE_MATRIX_TYPES)
         if self.type != "scipy":
             raise TypeError(
                 f"Cannot load object of type {self.module_name}.{self.class_name}"
